@@ -14,6 +14,9 @@ extern "C" int __verif_fmt_double(char *out, int cap, double v, int prec); /* un
 #ifndef VSTREAM_CAP
 #define VSTREAM_CAP 24
 #endif
+#ifndef VOSTREAM_CAP
+#define VOSTREAM_CAP (VSTREAM_CAP*2)
+#endif
 #ifndef VCONT_CAP
 #define VCONT_CAP 6
 #endif
